@@ -153,6 +153,26 @@ def ty_src(t, defs):
             pn = t.get('pyname') or t['name']
             defs[t['name']] = wrap_def(t['name'], t.get('pyname'), f'class {pn}({q("NamedTuple")}):\n' + '\n'.join(lines) + '\n')
         return t['name']
+    if k == 'typeddict' and t.get('own') is not None:
+        # declaration form (additive): `own` = the keys of this class body as [name, type, marker] with marker None /
+        # 'req' / 'notreq', `total` = the class's totality, `bases` = TypedDict nodes it inherits from; t['fields'] then is
+        # the effective key list td_fields(t)
+        if t['name'] not in defs:
+            defs[t['name']] = None
+            bases = [ty_src(b, defs) for b in t.get('bases') or []]
+            lines = []
+            for n, ft, mk in t['own']:
+                inner = ty_src(ft, defs)
+                if mk == 'req':
+                    inner = f'{"_te.Required" if SAFE else "Required"}[{inner}]'
+                elif mk == 'notreq':
+                    inner = f'{q("NotRequired")}[{inner}]'
+                lines.append(f'    {n}: {inner}')
+            del defs[t['name']]
+            pn = t.get('pyname') or t['name']
+            head = ', '.join(bases or [q('TypedDict')]) + ('' if t.get('total', True) else ', total=False')
+            defs[t['name']] = wrap_def(t['name'], t.get('pyname'), f'class {pn}({head}):\n' + '\n'.join(lines or ['    pass']) + '\n')
+        return t['name']
     if k == 'typeddict':
         if t['name'] not in defs:
             defs[t['name']] = None
@@ -175,6 +195,22 @@ def ty_src(t, defs):
             defs[name] = src
         return name
     raise ValueError(k)
+
+
+def td_fields(t):
+    """Effective keys [name, type, required] of a TypedDict node in declaration form, by the documented rule (PEP 589 /
+    PEP 655, i.e. what `__required_keys__` / `__optional_keys__` mean): a key is required or not according to the class
+    body that *declares* it - a Required[..] / NotRequired[..] marker, else that class's own totality - and is inherited
+    unchanged, whatever the totality of the inheriting class."""
+    if t.get('own') is None:
+        return [list(f) for f in t['fields']]
+    out = {}
+    for b in t.get('bases') or []:
+        for n, ft, req in td_fields(b):
+            out[n] = [n, ft, req]
+    for n, ft, mk in t['own']:
+        out[n] = [n, ft, True if mk == 'req' else False if mk == 'notreq' else bool(t.get('total', True))]
+    return list(out.values())
 
 
 def enum_bases(t):
